@@ -295,6 +295,7 @@ class Ctx:
             return 0
         print("REPLAY: reproduced - event %s of the stored prefix is not a step of the specification (invariant=%s): %s" % (r["at"], r["invariant"], json.dumps(r["event"])[:1500]))
         print("VIOLATION property=%s replay=%s" % (self.pid, path))
+        self.replay_line_printed = True
         return 1
 
     def add_samples(self, items, limit=3):
